@@ -102,7 +102,9 @@ CLAIMED.update({
     "C07": sim("Theorems: a store call answered within half a heartbeat interval (2 lat + 1 < H) never reaches the time-out of the validation read or of the refresh, for "
                "every H (time-outs regenerated from the source: max(2 s, H/2) after repair 07d1c30, max(1 s, H/2)); the lease lemma and the C02 theorem (the record never "
                "lapses or changes owner under a claiming leader in the fast-store environment); in that environment the heartbeat-failure path never gives up a claim, for "
-               "every admitted trace (Proofs/SimStable.v; rule 2080); the regenerated takeover comparison yields on equal priority. Stability against the other causes "
+               "every admitted trace (Proofs/SimStable.v; rule 2080); in the lease environment (no timing assumption at all) the watcher path never gives up a claim, whatever "
+               "the delay, duplication or order of the notifications (Proofs/SimWatch.v; rule 2082: that path acts only on a readable foreign version newer than the write the "
+               "term rests on, and while an instance holds a claim every newer readable version of its record is its own); the regenerated takeover comparison yields on equal priority. Stability against the other causes "
                "(no demotion until stop) is decided by the monitor on every fault-free trace, including intervals above 4 s and answers between the fixed time-outs and H/2.", "5.7, 11 and 12", TECH, category="other"),
     "C08": sim("Theorem (Coq, counting invariant over all admitted traces): the local callback rules (one promotion per term; a demotion only when one is owed and after the "
                "term's promotion has been entered; the claim raised only when no callback is owed) imply that promotion and demotion callbacks strictly alternate, starting "
